@@ -1,5 +1,5 @@
 """Registry of the claimed properties: Lean module, correspondence parts, trusted base."""
-from .domains import upcast, bus, store, state, names, resume, conc, durable, locks
+from .domains import upcast, bus, store, state, names, resume, conc, durable, locks, shutdown
 
 COMMON_ASSUME = [
     "the hand-written Lean model equals the Go code only on the inputs the correspondence ran (differential testing, reported under coverage)",
@@ -158,3 +158,8 @@ PROPS.update({
 
 # C09's concurrent clause: an implementation-side judge under real concurrency (N publishes -> N records, increasing offsets)
 PROPS["C09"]["parts"].append(dict(name="racepub09", domain="resume", domain_module="resume", gen=resume.gen_racepub, n_quick=6, n_thorough=200, chunk=4))
+
+# C06's Shutdown sentence: model M2s + a timing-based harness (blocked async handlers, context expiry, counting Close)
+PROPS["C06"]["parts"].append(dict(name="shutdown06", domain="shutdown", domain_module="shutdown", gen=shutdown.gen, n_quick=40, n_thorough=1500, chunk=8, jobs=8))
+PROPS["C06"]["level_note"] = PROPS["C06"]["level_note"].replace("Shutdown (nil only after Wait, store closed only then, ctx error ⇒ store not closed) is not in the model: not claimed by a theorem, covered by no correspondence yet – PARTIAL for the Shutdown sentence of the property.",
+    "Shutdown is a separate small model (M2s: nil/close-error only with nothing in flight and exactly one Close; context error ⇒ no Close; blocks iff work in flight and context live), tied by a harness that holds async handlers at a gate and waits 60 ms to call a Shutdown 'blocked' (timing based; the case where both select branches are ready is excluded because Go picks at random).")
